@@ -257,6 +257,7 @@ type simReq struct {
 	keys      [][]byte // keys whose fragments must be answered
 	pending   map[string]int
 	failed    bool // an error / timeout / close completed it
+	lost      bool // ... because its backend connection was lost or a redirect named an unknown node (C15)
 	rejected  bool
 }
 
@@ -284,11 +285,20 @@ type simRun struct {
 	clients  []*simClientState
 	backends []*simBackendState
 	enq      []enqRec
+	redirs   []redirRec // every MOVED / ASK reply given, for the C13 oracle
 	model    []string // concrete events for the Lean model
 	snaps    []string
 	fails    []string
 	tags     map[string]bool
 	crashed  string
+}
+
+// redirRec: backend `from` answered `cmd` with MOVED/ASK naming `addr`; marks[j] = commands backend j had received then
+type redirRec struct {
+	cmd   [][]byte
+	addr  string
+	isAsk bool
+	marks []int
 }
 
 func (r *simRun) fail(format string, a ...interface{}) {
@@ -604,7 +614,26 @@ func (r *simRun) backendEvent(j int, kind string, arg string) {
 	}
 	b.answered++
 	r.tags["reply:"+kind] = true
-	// C13: a command that follows an ASK redirect must be preceded by ASKING (checked when it is answered)
+	if kind == "moved" || kind == "ask" {
+		a, _ := unhx(arg)
+		known := false
+		for _, p := range r.topo.pools {
+			if p.addr == string(a) {
+				known = true
+			}
+		}
+		if known {
+			rec := redirRec{cmd: cmd, addr: string(a), isAsk: kind == "ask"}
+			for _, ob := range r.backends {
+				rec.marks = append(rec.marks, len(ob.cmds))
+			}
+			r.redirs = append(r.redirs, rec)
+		} else {
+			// C15: a redirect to a node the proxy does not know must fail the request, not strand it
+			kind = "unknown-node"
+			r.tags["redirect-unknown-node"] = true
+		}
+	}
 	r.noteAnswered(j, cmd, kind, reply)
 	if err := r.env.Feed(b.peer, reply); err != nil {
 		r.tags["feed-error"] = true
@@ -669,6 +698,9 @@ func (r *simRun) noteAnswered(j int, cmd [][]byte, kind string, reply []byte) {
 			// stays pending: it will be re-sent
 		default:
 			q.failed = true
+			if kind == "lost" || kind == "unknown-node" {
+				q.lost = true
+			}
 		}
 		if kind == "big" && len(reply) > r.cfg.limit {
 			q.failed = true
@@ -803,7 +835,17 @@ func (r *simRun) checkClients(after string) {
 				p++
 			}
 			if len(replies) < p {
-				r.fail("C09: client %d has %d leading requests completed but only %d replies delivered (%s)", ci, p, len(replies), after)
+				lost := -1
+				for k := len(replies); k < p; k++ {
+					if c.reqs[k].lost && lost < 0 {
+						lost = k
+					}
+				}
+				if lost >= 0 {
+					r.fail("C15: client %d is left waiting: its request %d %q was queued to or in flight on a lost backend connection (or redirected to an unknown node) and %d of %d completed leading requests are unanswered (%s)", ci, lost, clip(encodeCmd(c.reqs[lost].args)), p-len(replies), p, after)
+				} else {
+					r.fail("C09: client %d has %d leading requests completed but only %d replies delivered (%s)", ci, p, len(replies), after)
+				}
 			}
 		}
 	}
@@ -819,6 +861,7 @@ func clip(b []byte) []byte {
 // checkBackends: C10 (per connection, a client's commands arrive in request order), C13 (ASKING precedes a
 // command re-sent after ASK), C04 (role / owner of the key's slot, handshake first).
 func (r *simRun) checkBackends() {
+	r.checkRedirects()
 	for j, b := range r.backends {
 		last := map[int]int{}
 		// C04 handshake
@@ -868,6 +911,61 @@ func (r *simRun) checkBackends() {
 					if r.cfg.noslave || !refReadOnly[name] || refScan[name] {
 						r.fail("C04: %q (type %d) was sent to replica %s; it must go to the master %s", name, t, b.peer.addr, m)
 					}
+				}
+			}
+		}
+	}
+}
+
+func sameCmd(a, b [][]byte) bool {
+	if len(a) != len(b) {
+		return false
+	}
+	for i := range a {
+		if !bytes.Equal(a[i], b[i]) {
+			return false
+		}
+	}
+	return true
+}
+
+// checkRedirects: C13. (a) every ASKING on the wire is directly followed by a command that an ASK reply sent to
+// this very node; (b) a command re-sent to the node named by an ASK reply arrives there directly behind ASKING.
+func (r *simRun) checkRedirects() {
+	for j, b := range r.backends {
+		for i, cmd := range b.cmds {
+			if string(lowerASCII(cmd[0])) != "asking" || i+1 >= len(b.cmds) {
+				continue
+			}
+			ok := false
+			for _, rec := range r.redirs {
+				if rec.isAsk && rec.addr == b.peer.addr && sameCmd(rec.cmd, b.cmds[i+1]) {
+					ok = true
+				}
+			}
+			if !ok {
+				r.fail("C13: on backend connection %d (%s) ASKING is followed by %q, which no ASK reply redirected to this node", j, b.peer.addr, clip(encodeCmd(b.cmds[i+1])))
+			}
+		}
+	}
+	for _, rec := range r.redirs {
+		if !rec.isAsk {
+			continue
+		}
+		for j, b := range r.backends {
+			if b.peer.addr != rec.addr {
+				continue
+			}
+			from := 0
+			if j < len(rec.marks) {
+				from = rec.marks[j]
+			}
+			for i := from; i < len(b.cmds); i++ {
+				if sameCmd(b.cmds[i], rec.cmd) {
+					if i == 0 || string(lowerASCII(b.cmds[i-1][0])) != "asking" {
+						r.fail("C13: %q was re-sent to %s after an ASK redirect without a preceding ASKING (connection %d, command %d)", clip(encodeCmd(rec.cmd)), rec.addr, j, i)
+					}
+					break
 				}
 			}
 		}
